@@ -35,6 +35,7 @@ def tasks(tier, seed):
     from . import c12
     P = [{"family": "IDX", "id": text_id(t), "text": t, "meta": {}} for t in EXTRA + c12.UNUSED[:4]]
     P += families.layout_family()
+    P.append(families.wide_program(12))   # two-digit slot numbers in every backend
     dg = families.dag_family(2 if tier == "quick" else 3, 2)
     P += families.select(dg, 12 if tier == "quick" else 200, seed)
     if tier != "quick":
